@@ -42,6 +42,12 @@ CLAIMED = {
              "extend_duration is compared with a reference renderer written from the slot list.", ref="§6 C06",
              note="Trusted base: z3, symx (numpy object arrays carry the proxies; slicing/broadcast are numpy's own). Timelines concrete (a bound); "
              "modulated samples and the padding of a channel still in EOM mode in the per-atom view are outside the claim."),
+ "C16": dict(text="Bounded symbolic model checking of waveform/pulse contracts: index/slice arithmetic for all integer arguments against Python's "
+             "slice semantics, sample count/finiteness/documented values/integral/scaling/division/equality of Constant, Ramp, Custom, Composite and "
+             "Blackman waveforms for durations 1-6 with symbolic parameters, Pulse phase range, ArbitraryPhase reconstruction at every sample, and a "
+             "binary64 (QF_FP) query for the wrap edge of x % 2*pi.", ref="§6 C16",
+             note="Trusted base: z3, symx; R-mode exact reals with tolerance 1e-9 where binary64 constants are involved. Findings F2a/F2b/F3 are reported "
+             "as KNOWN-FINDING. Interpolated/Kaiser numerics and the from_max_val duration searches are outside the claim."),
  "C02": dict(text="Bounded symbolic model checking of the real _Schedule operations: one operation from an arbitrary state "
              "satisfying the representation invariant (inductive step), all times/durations/fall times/limits as solver variables; "
              "exhaustive over paths and values inside the stated slot-count/clock bounds.", ref="§6 C02, §5 L1"),
